@@ -34,10 +34,32 @@ ROUTES = [('/ok', 'ok'), ('/item/<x>', 'ok'), ('/moved', 'redirect'), ('/deny', 
           ('/nb3/<x>', 'nb404'), ('/flaky/<x>', 'flaky'), ('/only-get', 'ok-get'), ('/branch/', 'ok'), ('/teapot', 'return418'), ('/keyerr', 'uncaught-key')]
 
 
+_clock = {'offset': 0.0, 'installed': False}
+
+
+def install_clock():
+    """the time source of the stats middleware (module attribute `time`) runs ahead of the real one by an offset that slow
+    endpoints increase: requests that 'take' seconds without the check waiting for them"""
+    if _clock['installed']:
+        return
+    _clock['installed'] = True
+    import time as real
+    import clastic.middleware.stats as st
+
+    class ClockProxy(object):
+        def __getattr__(self, name):
+            return getattr(real, name)
+
+        def time(self):
+            return real.time() + _clock['offset']
+    st.time = ClockProxy()
+
+
 def build_app():
     from clastic import Application, Route, Response, redirect
     from clastic import errors
     from clastic.middleware.stats import StatsMiddleware, create_stats_app
+    install_clock()
 
     def mk(pattern, beh):
         names = ['x'] if '<x>' in pattern else (['y'] if '<y>' in pattern else [])
@@ -49,12 +71,21 @@ def build_app():
             if beh == 'flaky':
                 # one route, several outcomes: decided by the URL value
                 how = kw.get('x')
+                if how.startswith('slow-'):
+                    _clock['offset'] += {'s': 1.5, 'm': 75.0}[how[5]]      # this request takes seconds, or more than a minute
+                    how = how[7:]
                 if how == 'boom':
                     raise ValueError('flaky crash')
                 if how == 'deny':
                     raise errors.Forbidden('flaky no')
                 if how == 'teapot':
                     return errors.ImATeapot()
+                if how.startswith('exc-'):
+                    raise {'key': KeyError, 'type': TypeError, 'index': IndexError, 'zero': ZeroDivisionError, 'attr': AttributeError,
+                           'runtime': RuntimeError, 'os': OSError, 'lookup': LookupError, 'assert': AssertionError}[how[4:]]('flaky ' + how)
+                if how.startswith('code-'):
+                    raise {'400': errors.BadRequest, '401': errors.Unauthorized, '404': errors.NotFound, '409': errors.Conflict,
+                           '410': errors.Gone, '429': errors.TooManyRequests, '502': errors.BadGateway, '503': errors.ServiceUnavailable}[how[5:]]('flaky')
                 return Response('flaky fine', mimetype='text/plain')
             if beh in ('ok', 'ok-get', 'never'):
                 return Response('fine', mimetype='text/plain')
@@ -96,6 +127,28 @@ REQS = [
     ('200', 'GET', '/flaky/fine', [('/flaky/<x>', '200')]), ('uncaught', 'GET', '/flaky/boom', [('/flaky/<x>', 'ValueError')]),
     ('raised-4xx', 'GET', '/flaky/deny', [('/flaky/<x>', '403')]), ('returned-4xx', 'GET', '/flaky/teapot', [('/flaky/<x>', '418')]),
     ('uncaught', 'POST', '/flaky/boom', [('/flaky/<x>', 'ValueError')]), ('200', 'HEAD', '/flaky/x', [('/flaky/<x>', '200')]),
+    # one route, many different outcomes between two resets
+    ('uncaught', 'GET', '/flaky/exc-key', [('/flaky/<x>', 'KeyError')]),
+    ('uncaught', 'GET', '/flaky/exc-type', [('/flaky/<x>', 'TypeError')]),
+    ('uncaught', 'GET', '/flaky/exc-index', [('/flaky/<x>', 'IndexError')]),
+    ('uncaught', 'GET', '/flaky/exc-zero', [('/flaky/<x>', 'ZeroDivisionError')]),
+    ('uncaught', 'GET', '/flaky/exc-attr', [('/flaky/<x>', 'AttributeError')]),
+    ('uncaught', 'GET', '/flaky/exc-runtime', [('/flaky/<x>', 'RuntimeError')]),
+    ('uncaught', 'GET', '/flaky/exc-os', [('/flaky/<x>', 'OSError')]),
+    ('uncaught', 'GET', '/flaky/exc-lookup', [('/flaky/<x>', 'LookupError')]),
+    ('uncaught', 'GET', '/flaky/exc-assert', [('/flaky/<x>', 'AssertionError')]),
+    ('raised-4xx', 'GET', '/flaky/code-400', [('/flaky/<x>', '400')]),
+    ('raised-4xx', 'GET', '/flaky/code-401', [('/flaky/<x>', '401')]),
+    ('raised-4xx', 'GET', '/flaky/code-404', [('/flaky/<x>', '404')]),
+    ('raised-4xx', 'GET', '/flaky/code-409', [('/flaky/<x>', '409')]),
+    ('raised-4xx', 'GET', '/flaky/code-410', [('/flaky/<x>', '410')]),
+    ('raised-4xx', 'GET', '/flaky/code-429', [('/flaky/<x>', '429')]),
+    ('raised-4xx', 'GET', '/flaky/code-502', [('/flaky/<x>', '502')]),
+    ('raised-4xx', 'GET', '/flaky/code-503', [('/flaky/<x>', '503')]),
+    # slow requests (the middleware's clock is moved while they run): every kind of outcome, slowly
+    ('200', 'GET', '/flaky/slow-s-fine', [('/flaky/<x>', '200')]), ('uncaught', 'GET', '/flaky/slow-s-exc-os', [('/flaky/<x>', 'OSError')]),
+    ('uncaught', 'GET', '/flaky/slow-m-boom', [('/flaky/<x>', 'ValueError')]), ('raised-4xx', 'GET', '/flaky/slow-s-code-404', [('/flaky/<x>', '404')]),
+    ('returned-4xx', 'GET', '/flaky/slow-m-teapot', [('/flaky/<x>', '418')]), ('uncaught', 'POST', '/flaky/slow-s-exc-lookup', [('/flaky/<x>', 'LookupError')]),
 ]
 
 
